@@ -72,11 +72,14 @@ def record_one(rt, rng, threads, length, max_rt=12, max_depth=8):
             elif kind == "RegisterDefault":
                 registered.add(a["ty"])
             elif kind == "Probe":
+                val.pop("__current__", None)
                 a["res"] = val
             events.append(a)
         # close the trace with a probe in every thread
         for t in threads:
             status, val = w.probe_in(t)
+            if isinstance(val, dict):
+                val.pop("__current__", None)
             events.append({"a": "Probe", "t": t, "res": val})
     finally:
         w.close()
